@@ -9,37 +9,41 @@ NOTE_COMMON = ("Trusted: Lean 4.33 kernel + Mathlib (axioms propext, Classical.c
                "floating-point rounding, overflow and the sparse solver are not modelled.")
 
 T = "Lean 4 proof (kernel-checked theorems about the model) + model/implementation correspondence (exact-rational driver vs real code); failing-input search on the implementation when either breaks"
+TG = T + "; the coefficient formulas of the matrix builders, ghost cells and boundary rows are REGENERATED from the numpy source on every run (translators T-num, T-upw, T-bc) and proved equal to the model"
 CLAIMED = {
-    "C01": (T, "Every flux-form term of the model is the divergence of a face flux (C05 lemmas) and the consistent-volume-weighted sum of a divergence along any grid "
+    "C01": (TG, "Every flux-form term of the model is the divergence of a face flux (C05 lemmas) and the consistent-volume-weighted sum of a divergence along any grid "
             "line telescopes to the two boundary faces for every number of cells (Finset.sum_range_sub) — so interior fluxes cancel for all sizes, spacings and fields; "
             "closed (no-flux / zero normal velocity) and periodic (equal end cells) lines give zero; a closed implicit or explicit step conserves the weighted sum for any dt; "
-            "cellvolume = const x consistent volume on 8 classes. Counterexample theorems + known findings: SphericalGrid3D volume, upwind x periodic.",
+            "cellvolume = const x consistent volume on 8 classes; lifted to the triple sum over the whole index box (C01Box: boxSum_divergence, closed_step_box, domainIntegral_conserved_diffusion_advection: one implicit step of transient - diffusion + upwind + central - TVD with no-flux walls and zero wall-normal velocity leaves the sum of cellVolume*alpha*x unchanged). Counterexample theorems + known findings: SphericalGrid3D volume, upwind x periodic.",
             "§6 C01", "Known findings sph3-volume-inconsistent and upwind-periodic-nonconservative are replayed on the real code every run."),
-    "C02": (T, "PARTIAL by nature: proved are exactness of gradient / linear mean / Robin ghost on linear fields for any non-uniform axis, exact values with explicit remainders of the "
-            "diffusion stencils on quadratics in Cartesian, cylindrical (=4) and spherical (=6 + h^2/(2 r^2), sph1: exactly 6) coordinates, exactness of central/upwind advection on "
-            "linear fields, divergence-free radial velocities, and the M-matrix error bound |e| <= |tau|/w — i.e. every metric factor, sign and coefficient placement agrees with the "
-            "continuous operator. The Taylor-remainder step to O(h^2) for every smooth solution is not mechanised; a manufactured-solution refinement study on all 9 classes "
-            "(Dirichlet/Neumann/Robin per side, uniform and graded, 5 term sets) runs as exploration and as the failing-input search.",
-            "§6 C02", "Partial: consistency + stability proved, convergence rate explored."),
-    "C03": (T, "Ghost values of the model satisfy a*(normal difference quotient with the 1/r, 1/(r sin theta) metric factor) + b*(face average) = c whenever defined, are defined iff the "
+    "C02": (TG, "Proved: (i) exactness of gradient / linear mean / Robin ghost on linear fields for any non-uniform axis, exact values with explicit remainders of the diffusion "
+            "stencils on quadratics in Cartesian, cylindrical (=4) and spherical (=6 + h^2/(2 r^2), sph1: exactly 6) coordinates, exactness of central/upwind advection on linear fields, "
+            "divergence-free radial velocities, the M-matrix error bound — i.e. every metric factor, sign and coefficient placement agrees with the continuous operator; "
+            "(ii) a CONVERGENCE THEOREM over the reals (Taylor with Lagrange remainder + barrier function + tridiagonal comparison principle): for u in C^4 with -u''=f, every N>=2 and every "
+            "field satisfying the model's assembled rows and Dirichlet ghost formulas on the uniform 1-D mesh, |x_i - u(x_i)| <= (M4 L^2/96 + 7 M2/8) (L/N)^2, although the boundary row is "
+            "truncation-inconsistent at order 0 (proved); existence/uniqueness of the discrete solution; backward Euler: spatial error does not accumulate, temporal error <= n dt (Mtt dt/2). "
+            "PARTIAL: the O(h^2) rate is mechanised for the 1-D Cartesian Dirichlet model problem only; for the other classes, Neumann/Robin data and graded meshes a manufactured-solution "
+            "refinement study on all 9 classes runs as exploration and as the failing-input search.",
+            "§6 C02, §13.3c", "Partial: consistency + stability for all classes, convergence rate proved for the 1-D model problem, explored elsewhere."),
+    "C03": (TG, "Ghost values of the model satisfy a*(normal difference quotient with the 1/r, 1/(r sin theta) metric factor) + b*(face average) = c whenever defined, are defined iff the "
             "ghost coefficient is non-zero, are invariant under scaling (a,b,c); the solver's boundary row is equivalent to the same Robin relation, hence the ghost unknown the solver "
             "computes is the value reported afterwards; wrap iff an axis side is flagged periodic; periodic rows <=> wrap when the end cells are equal (counterexample otherwise: known finding).",
             "§6 C03", "Known finding periodic-unequal-end-cells replayed every run."),
-    "C04": (T, "Assembled row/right-hand side = sum over the term list for matrix / vector / pair kinds (foldl = sum), invariant under permutation, scaling and negation; ghost rows never "
+    "C04": (TG, "Assembled row/right-hand side = sum over the term list for matrix / vector / pair kinds (foldl = sum), invariant under permutation, scaling and negation; ghost rows never "
             "depend on the terms and interior rows never on the BCs; the assembled operator is linear, solutions superpose in (sources, boundary data c, previous values) and are linear given uniqueness. "
             "The system handed to a recording external solver is compared entry-wise with the model's, and the float solution's exact-rational residual in the model's system is measured.",
             "§6 C04", ""),
-    "C05": (T, "For every grid class, every well-formed non-uniform mesh of any size, every coefficient field and every ghosted field, the model's matrix rows equal the divergence of the "
+    "C05": (TG, "For every grid class, every well-formed non-uniform mesh of any size, every coefficient field and every ghosted field, the model's matrix rows equal the divergence of the "
             "corresponding face flux (diffusion = div(D grad), central = div(u lin), upwind = div(u upwindMean) incl. boundary corrections and N=1, TVD zero/unit limiter identities).",
             "§6 C05", "UpOK hypothesis: u = 0 wherever an explicitly given upwind-direction field is exactly 0 (automatic for the default)."),
-    "C06": (T, "Constants are annihilated by the diffusion rows (no hypothesis), advect as c*div(u) under central and upwind rows for every sign pattern, have zero TVD correction for every "
+    "C06": (TG, "Constants are annihilated by the diffusion rows (no hypothesis), advect as c*div(u) under central and upwind rows for every sign pattern, have zero TVD correction for every "
             "limiter; sources are diagonal (phi = gamma/beta cell by cell); the steady uniform state and the cell-local source solve are additionally exercised on the real solver.",
             "§6 C06", ""),
-    "C07": (T, "Row structure of transient - diffusion(D>=0) + upwind(div-free u) + sink(beta>=0) proved for every grid class, spacing, contrast and dt>0: non-positive off-diagonals, row sum "
+    "C07": (TG, "Row structure of transient - diffusion(D>=0) + upwind(div-free u) + sink(beta>=0) proved for every grid class, spacing, contrast and dt>0: non-positive off-diagonals, row sum "
             "alpha/dt + beta, rhs (alpha/dt) old; local and global maximum/minimum principle for Dirichlet / no-flux / periodic ghosts (any end-cell sizes), any number of steps, "
             "non-negativity preserved, uniqueness of the solution; with a sink 0 joins the hull (counterexample theorem shows it must).",
             "§6 C07", "lineA >= 0 (sin(theta_f) >= 0 on sph3) is a hypothesis."),
-    "C08": (T, "Every stencil of the model equals a 1-D line form that mentions the direction only through its axis data, hence axis permutation theorems on Cartesian grids (rows, TVD included); "
+    "C08": (TG, "Every stencil of the model equals a 1-D line form that mentions the direction only through its axis data, hence axis permutation theorems on Cartesian grids (rows, TVD included); "
             "mirror theorems (w,p,e) -> (e,p,w) incl. upwind boundary corrections and TVD for every limiter; redundant-axis theorems (stencil along a constant direction vanishes, kept "
             "directions coincide between Grid3D/2D/1D, Cylindrical3D/2D, Polar2D/Cylindrical1D, lifted solutions satisfy interior and ghost rows); shift invariance on uniform axes.",
             "§6 C08", "Known finding upwind-periodic-not-shift-invariant (boundary treatment of upwind at periodic faces)."),
@@ -82,7 +86,7 @@ CLAIMED = {
             "0..7 x both argument forms, term kinds, BoundaryFace coefficient types and all periodic-flag subsets follow the documented exception types; the initial-value shape "
             "cascade is characterised for ALL ranks and extents (a real ∀ theorem). The real code's outcome is enumerated completely against these tables on every run.",
             "§6 C16", "Right arity with wrong argument types (e.g. Grid1D(3)) is out of the property's scope and modelled as is."),
-    "C17": (T, "Homogeneity of every metric quantity under length scaling (exponent table) and hence of every stencil, divergence, gradient, mean, source, transient, ghost value and boundary row; "
+    "C17": (TG, "Homogeneity of every metric quantity under length scaling (exponent table) and hence of every stencil, divergence, gradient, mean, source, transient, ghost value and boundary row; "
             "a solution of the system in one unit system, multiplied by K, solves the rescaled system, for any number of steps; TVD under an explicit outside-the-threshold-band hypothesis "
             "(counterexample inside the band); every term linear in its coefficient field (upwind at fixed direction).",
             "§6 C17", "PolarGrid2D decoupled corner rows are not homogeneous (harmless; hypothesis CornersZero)."),
